@@ -2,14 +2,23 @@ package common
 
 import (
 	"encoding/binary"
+	"errors"
 	"io"
+	"math"
 	"strings"
 )
+
+// ErrStringTooLong is returned by WriteString for strings longer than 255 bytes.
+var ErrStringTooLong = errors.New("string too long for a one-byte length prefix")
 
 // WriteString writes a string preceded by its length (up to 256 bytes)
 // TODO(baumanl): make this better/make sure they work with updates to reliable tubes
 func WriteString(s string, w io.Writer) (int64, error) {
 	var written int64
+	// the length prefix is a single byte: refuse what it cannot express
+	if len(s) > math.MaxUint8 {
+		return written, ErrStringTooLong
+	}
 	// write length of string as one byte
 	n, err := w.Write([]byte{byte(len(s))})
 	written += int64(n)
